@@ -180,6 +180,19 @@ def run(program, rep, tier):
     class _NoEval(Exception):
         pass
 
+    def _pred_fn(name):
+        """(param, returned expression) of a private module-level function
+        `def _f(x): return <expr>` of the module."""
+        if not name or not name.startswith('_'):
+            return None
+        for s_ in g.module.tree.body:
+            if isinstance(s_, ast.FunctionDef) and s_.name == name:
+                body_ = strip_docstring(s_.body)
+                if len(s_.args.args) == 1 and len(body_) == 1 and isinstance(
+                        body_[0], ast.Return) and body_[0].value is not None:
+                    return s_.args.args[0].arg, body_[0].value
+        return None
+
     class _Nm:
         """An abstract resource name: truth value = str.isidentifier()."""
         def __init__(self, ident, mangled):
@@ -247,6 +260,18 @@ def run(program, rep, tier):
             if d == 'map' and len(n.args) == 2 and norm(n.args[0]) \
                     == 'str.isidentifier':
                 return [bool(x) for x in _ev(n.args[1], sc, env)]
+            pf = _pred_fn(d)
+            if pf is not None and len(n.args) == 1 and not n.keywords:
+                return _ev(pf[1], sc, dict(env, **{
+                    pf[0]: _ev(n.args[0], sc, env)}))
+            if d in ('map', 'filter') and len(n.args) == 2 and _pred_fn(
+                    dotted(n.args[0]) or '') is not None:
+                pf = _pred_fn(dotted(n.args[0]))
+                seq = _ev(n.args[1], sc, env)
+                res_ = [(x, _ev(pf[1], sc, dict(env, **{pf[0]: x})))
+                        for x in seq]
+                return [bool(r_) for _, r_ in res_] if d == 'map' else [
+                    x for x, r_ in res_ if r_]
             if d == 'filter' and len(n.args) == 2:
                 f_, seq = n.args
                 seq = _ev(seq, sc, env)
